@@ -304,6 +304,16 @@ func (tx *TransactionImpl) Rollback() error {
 	return nil
 }
 
+// lastActive returns the time of the transaction's last operation. The field
+// is written by every operation under tx.mu, so the registry's cleanup
+// goroutine must read it under the same lock
+func (tx *TransactionImpl) lastActive() time.Time {
+	tx.mu.Lock()
+	defer tx.mu.Unlock()
+
+	return tx.lastActiveTime
+}
+
 // IsReadOnly returns true if this is a read-only transaction
 func (tx *TransactionImpl) IsReadOnly() bool {
 	return tx.mode == ReadOnly
